@@ -21,6 +21,35 @@ def sp_groups(pattern: str) -> int:
     return _sp.parse(pattern).state.groups - 1
 
 
+def pretty_tokens(ctx):
+    """pretty.TOKENS as {token name: inventoried regex}, whatever way the table is assembled (a dict literal, per-feature
+    tables merged at import time): the module-level value is obtained by interpretation and each pattern is looked up in the
+    regex inventory by its source."""
+    from ..interp import Interp, Obj
+    from ..miniev import Unsupported
+    inv = ctx.consts
+    it = Interp(ctx, 'pretty', None, {}, {}, shared={'steps': 0})
+    try:
+        v = it.lookup_module_name(ctx.src.mod('pretty'), 'TOKENS')
+    except (KeyError, Unsupported) as e:
+        raise AnalysisError(f'pretty.TOKENS cannot be evaluated: {e}')
+    if not isinstance(v, dict):
+        raise AnalysisError('pretty.TOKENS is not a mapping')
+    by_src = {}
+    for r in inv.regexes:
+        if r.module == 'pretty' and isinstance(r.pattern, str):
+            by_src.setdefault((r.pattern, r.flags), r)
+    out = {}
+    for k, o in v.items():
+        if not (isinstance(k, str) and isinstance(o, Obj) and o.has('pattern')):
+            raise AnalysisError(f'pretty.TOKENS[{k!r}] is not a compiled regex')
+        r = by_src.get((o.get('pattern'), int(o.get('flags') or 0))) or next((x for (p_, f_), x in by_src.items() if p_ == o.get('pattern')), None)
+        if r is None:
+            raise AnalysisError(f'pretty.TOKENS[{k!r}] is not an inventoried regex')
+        out[k] = r
+    return out
+
+
 def run(ctx, report: Report) -> None:
     src, inv = ctx.src, ctx.consts
     report.explanation = (
@@ -46,11 +75,7 @@ def run(ctx, report: Report) -> None:
         if kind == 'tokens':
             names = [r for r in inv.regexes if r.kind in ('token', 'special-token')]
         else:
-            dn = inv.folder.env_nodes['pretty'].get('TOKENS')
-            if not isinstance(dn, ast.Dict):
-                raise AnalysisError('pretty.TOKENS is not a dict literal')
-            for v in dn.values:
-                names.append(inv.by_name(f'pretty.{unparse(v)}'))
+            names = list(pretty_tokens(ctx).values())
         nullable = []
         ambiguous = []
         for r in names:
@@ -92,21 +117,12 @@ def run(ctx, report: Report) -> None:
     # ---- R2 ----------------------------------------------------------------------------------------------
     r2 = report.rule('C20-R2', 'the pretty-printer emits every token kind', floor=4)
     pmod, pfn = src.func('pretty.pretty')
-    dn = inv.folder.env_nodes['pretty'].get('TOKENS')
-    keys = [k.value for k in dn.keys if isinstance(k, ast.Constant)]
-    # decision table by partial evaluation: pretty() on a one-token input, the regexes replaced by an abstract matcher
-    # that recognises exactly the token kind under test
     from ..interp import Obj, Raised, call_function
     from ..miniev import Unsupported
     from ..tables import match_obj
-    if not isinstance(dn, ast.Dict):
-        raise AnalysisError('pretty.TOKENS is not a dict literal')
-    pat_of = {}
-    for k_, v_ in zip(dn.keys, dn.values):
-        r_ = inv.by_name(f'pretty.{unparse(v_)}')
-        if r_ is None or not isinstance(k_, ast.Constant):
-            raise AnalysisError(f'pretty.TOKENS[{unparse(k_)}] is not an inventoried regex')
-        pat_of[k_.value] = r_.pattern
+    toks = pretty_tokens(ctx)
+    keys = list(toks)
+    pat_of = {k_: r_.pattern for k_, r_ in toks.items()}
 
     def pretty_on(kind):
         calls = [0]
